@@ -8,6 +8,8 @@ package verifsim
 import (
 	"encoding/binary"
 	"fmt"
+	"net"
+	"strings"
 )
 
 var be = binary.BigEndian
@@ -265,9 +267,18 @@ func isRequestType(t uint8) bool {
 	return false
 }
 
-func nodeIDv4(ip string) TLV {
-	a := udpAddr(ip + ":1").IP.To4()
-	return tlv(ieNodeID, 0, a[0], a[1], a[2], a[3])
+// nodeIDv4 encodes a Node ID IE: an IPv4 literal as type 0, anything else as an FQDN.
+func nodeIDv4(node string) TLV {
+	if ip := net.ParseIP(node); ip != nil && ip.To4() != nil {
+		a := ip.To4()
+		return tlv(ieNodeID, 0, a[0], a[1], a[2], a[3])
+	}
+	v := []byte{2}
+	for _, l := range strings.Split(node, ".") {
+		v = append(v, byte(len(l)))
+		v = append(v, l...)
+	}
+	return TLV{T: ieNodeID, V: v}
 }
 
 func fseidV4(seid uint64, ip string) TLV {
